@@ -118,6 +118,19 @@ def fold_invariance(params: Sequence[str], body: str, sort: str) -> Tuple[str, s
     from vc.sqlvc import SV, CStr
     if HOLE_L in body:
         return "undecided", "lambda body contains holes", None
+    ck = (tuple(params), body, sort)
+    if ck in _FOLD_CACHE:
+        return _FOLD_CACHE[ck]
+    res = _fold_invariance(params, body, sort)
+    _FOLD_CACHE[ck] = res
+    return res
+
+
+_FOLD_CACHE: Dict[Any, Tuple[str, str, Any]] = {}
+
+
+def _fold_invariance(params: Sequence[str], body: str, sort: str) -> Tuple[str, str, Any]:
+    from vc.sqlvc import SV, CStr
     eng = _fold_engine()
     d = eng.decls
 
@@ -1023,8 +1036,11 @@ def replay_union(mode: str, tier: str) -> Tuple[Optional[bool], str, Any]:
     try:
         variants: List[Tuple[str, Dict[str, Optional[str]], Any, Any]] = []
         if mode == "C15":
-            for cfg in ({"VTL_THREADS": "1"}, {"VTL_THREADS": "4"}, {"VTL_THREADS": "16"}, {"VTL_THREADS": "16", "VTL_USE_IN_MEMORY_DB": "0"},
-                        {"VTL_THREADS": "4", "VTL_MEMORY_LIMIT": "64MB", "VTL_USE_IN_MEMORY_DB": "0"}):
+            cfgs: List[Dict[str, Optional[str]]] = [{"VTL_THREADS": "1"}, {"VTL_THREADS": "16", "VTL_USE_IN_MEMORY_DB": "0"},
+                                                    {"VTL_THREADS": "4", "VTL_MEMORY_LIMIT": "64MB", "VTL_USE_IN_MEMORY_DB": "0"}]
+            if tier == "thorough":
+                cfgs += [{"VTL_THREADS": "4"}, {"VTL_THREADS": "16"}, {"VTL_THREADS": "2", "VTL_MEMORY_LIMIT": "64MB"}]
+            for cfg in cfgs:
                 variants.append((str(cfg), cfg, a, b))
         else:
             for k in range(4 if tier == "thorough" else 3):
@@ -1407,11 +1423,26 @@ def b33_task(arg: Tuple[str, int, int, bool, int, int]) -> List[Tuple[str, str, 
                             data = {u.name: u.frame() for u in used}
                             data[t.name] = df0.iloc[list(perm)].reset_index(drop=True)
                             variants.append((f"{t.name} rows {list(perm)}", data))
+            base_csv = None
             for desc_s, data in variants:
                 got = _run_ir(stmts, used, data, scalars)
                 runs += 1
-                if got != base:
-                    problem = f"baseline {_short(base)} but with [{desc_s}] {_short(got)}"
+                ref = base
+                if any(isinstance(x, Path) for x in data.values()):
+                    # a CSV variant is compared with the CSV form of the ORIGINAL tables (whether CSV and DataFrame inputs
+                    # agree with each other is C18's property, not this one)
+                    if base_csv is None:
+                        files = {}
+                        for t in used:
+                            p = tmp / f"{idx}_base_{t.name}" / f"{t.name}.csv"
+                            p.parent.mkdir(parents=True, exist_ok=True)
+                            _write_csv(t.frame(), p)
+                            files[t.name] = p
+                        base_csv = _run_ir(stmts, used, files, scalars)
+                        runs += 1
+                    ref = base_csv
+                if got != ref:
+                    problem = f"original inputs{' (as CSV)' if ref is base_csv else ''} give {_short(ref)} but [{desc_s}] gives {_short(got)}"
                     break
             out.append((cls, text, problem, runs))
     finally:
@@ -1520,13 +1551,13 @@ def b15_task(arg: Tuple[str, int, int, bool, int, int, int]) -> List[Tuple[str, 
     return out
 
 
-def extra_task(arg: Tuple[str, int, bool]) -> List[Tuple[str, Optional[str], Optional[str], int]]:
+def extra_task(arg: Tuple[str, int, bool, int]) -> List[Tuple[str, Optional[str], Optional[str], int]]:
     """The programs of extra_programs(): (label, problem, attributed key, runs)."""
-    mode, n, thorough = arg
+    mode, n, thorough, only = arg
     core.boot(full=True)
     import pandas as pd
     out = []
-    for label, stmts, structs, rows, key in extra_programs():
+    for label, stmts, structs, rows, key in extra_programs()[only:only + 1]:
         runs, problem = 0, None
         try:
             if mode == "C33":
@@ -1568,9 +1599,9 @@ def extra_task(arg: Tuple[str, int, bool]) -> List[Tuple[str, Optional[str], Opt
     return out
 
 
-def run_bounded(chk: Check, mode: str, known_keys: Sequence[str]) -> None:
-    """Bounded tier of both properties; the pool of worker processes must be created before any DuckDB connection exists
-    in this process (fork)."""
+def run_bounded(chk: Check, mode: str, known_keys: Sequence[str]) -> Callable[[], None]:
+    """Bounded tier of both properties.  Starts the worker processes (fork - must happen before any DuckDB connection exists
+    in this process) and returns the function that waits for them and records the obligations; the P tier runs meanwhile."""
     import multiprocessing as mp
     thorough = chk.tier == "thorough"
     per_family = 40 if thorough else 8
@@ -1585,17 +1616,28 @@ def run_bounded(chk: Check, mode: str, known_keys: Sequence[str]) -> None:
             else:
                 n_f = n_rows if (not thorough or fam in ("aggregations", "setops")) else min(n_rows, 200000)
                 tasks.append((b15_task, (fam, chk.seed, max(4, per_family // 2), thorough, part, parts, n_f)))
-    tasks.append((extra_task, (mode, REPLAY_ROWS if mode == "C15" else 0, thorough)))
+    core.boot(full=True)
+    for i in range(len(extra_programs())):
+        tasks.insert(0, (extra_task, (mode, REPLAY_ROWS if mode == "C15" else 0, thorough, i)))     # the heavy ones first
     ctx = mp.get_context("fork")
     jobs = int(os.environ.get("VERIF_B_JOBS", "0")) or max(2, min(8, core.NCPU // 2))
-    with ctx.Pool(jobs) as pool:
-        asyncs = [pool.apply_async(fn, (a,)) for fn, a in tasks]
+    pool = ctx.Pool(jobs)           # workers are forked HERE, before this process opens any DuckDB connection
+    asyncs = [pool.apply_async(fn, (a,)) for fn, a in tasks]
+    pool.close()
+
+    def collect() -> None:
         results = []
         for (fn, a), r in zip(tasks, asyncs):
             try:
-                results.append((fn, a, r.get(timeout=1500 if thorough else 400)))
+                results.append((fn, a, r.get(timeout=2400 if thorough else 400)))
             except Exception as e:  # noqa: BLE001
                 results.append((fn, a, e))
+        pool.terminate()
+        _bounded_obligations(chk, mode, results, n_rows)
+    return collect
+
+
+def _bounded_obligations(chk: Check, mode: str, results: List[Any], n_rows: int) -> None:
     classes: Dict[str, Dict[str, Any]] = {}
     total_runs, total_progs = 0, 0
     for fn, a, res in results:
